@@ -9,6 +9,7 @@ import (
 	"encoding/json"
 	"errors"
 	"fmt"
+	"github.com/jilio/ebu/state"
 	"math/rand/v2"
 	"reflect"
 	"strings"
@@ -98,7 +99,7 @@ func (r *registry) apply(data json.RawMessage, typ string) (json.RawMessage, str
 
 type failPlan struct{ label string }
 
-var routingUpcasters atomic.Int64
+var routingUpcasters, materializerReplays atomic.Int64
 
 func rawUp(label, to string, fp *failPlan) func(json.RawMessage) (json.RawMessage, string, error) {
 	return func(d json.RawMessage) (json.RawMessage, string, error) {
@@ -258,6 +259,13 @@ func (w *world) replayCheck(run *vk.Run, log []stored, witness map[string]any, p
 	viol := func(rule, desc string) {
 		run.Violation("upcast:"+rule, fmt.Sprintf("[%s, failing step %q] %s", phase, w.fp.label, desc), witness)
 	}
+	// a state materializer of its own (with its own error callback) reads the same bus first: that is
+	// a reader, not a reconfiguration of the bus - the bus's upcast error handler stays the one in place
+	if vk.Hash64(phase, w.fp.label)%3 == 0 {
+		mat := state.NewMaterializer(state.WithOnError(func(error) {}))
+		mat.Replay(context.Background(), w.bus, ebu.OffsetOldest)
+		materializerReplays.Add(1)
+	}
 	w.errs = nil
 	var wantErrs []errCall
 	i := 0
@@ -370,7 +378,10 @@ func clipCalls(l []errCall) []errCall {
 func TestC17(t *testing.T) {
 	run := vk.New("C17", "chains")
 	defer run.Finish()
-	defer func() { run.Count("routing_raw_upcasters_registered", routingUpcasters.Load()) }()
+	defer func() {
+		run.Count("routing_raw_upcasters_registered", routingUpcasters.Load())
+		run.Count("materializer_replays_between_upcasting_replays", materializerReplays.Load())
+	}()
 	n := run.Scale(250, 8000)
 	if run.Shard == 0 {
 		registerDuringSubscribe(run)
